@@ -175,7 +175,7 @@ func muxEffects(c *core.Ctx, R string) {
 		c.Check(R, "types.(*ServeMux).Handle/prefix→es,exact→m", u.Pos(), okEs && okM, keyf("pattern ending in '/' appended (sorted) to es: %v; other patterns stored in the exact map: %v", okEs, okM))
 	}
 	// ---- handler ----
-	if u := c.Fn(R, "types.(*ServeMux).handler"); u != nil {
+	if u := c.Fn(R, "types.(*ServeMux).handler"); u != nil && localAnchors(c, R, u, "h") {
 		g := u.Graph()
 		info := u.Info()
 		noH := gNilLocal("h", false)
@@ -210,7 +210,7 @@ func muxEffects(c *core.Ctx, R string) {
 		c.Check(R, "types.(*ServeMux).handler/host-then-path-then-default", u.Pos(), okHost && okPath && okDef, keyf("host+path only with host patterns: %v; path when still nil: %v; default handler when still nil: %v", okHost, okPath, okDef))
 	}
 	// ---- CleanPath ----
-	if u := c.Fn(R, "utils.CleanPath"); u != nil {
+	if u := c.Fn(R, "utils.CleanPath"); u != nil && localAnchors(c, R, u, "np") {
 		g := u.Graph()
 		info := u.Info()
 		p := paramName(u, 0)
